@@ -99,3 +99,28 @@ __CPROVER_ensures(((vc_mag(k) >> (__CPROVER_old(*len) * w)) == 0) ==> (g_ctx.cod
 	(gk < *len ==> (vc_wide)win[gk] == ((vc_mag(k) >> (gk * w)) & ((((vc_wide)1) << w) - 1)))))
 ;
 #include "vc_spec_pop.h"
+
+/* ---- width-w NAF recoding: sum naf[j] 2^j == |k|, digits zero or odd with |d| < 2^(w-1), length <= bits(k) + 1 -------- */
+#ifndef VC_NAF_MAXBITS
+#define VC_NAF_MAXBITS (RLC_BN_SIZE * RLC_DIG - 2 * RLC_DIG)
+#endif
+#include "vc_spec_push.h"
+static inline vc_swide vc_naf_val(const int8_t *naf, size_t len) {
+	vc_swide v = 0;
+	for (size_t j = 0; j < VC_NAF_MAXBITS + 2; j++) {
+		if (j < len) v += ((vc_swide)naf[j]) << j;
+	}
+	return v;
+}
+void bn_rec_naf(int8_t *naf, size_t *len, const bn_t k, size_t w)
+__CPROVER_requires(w >= 2 && w <= 8)
+__CPROVER_requires(VC_BN_FRESH(k) && VC_BN_NF(k) && (vc_mag(k) >> VC_NAF_MAXBITS) == 0)
+__CPROVER_requires(__CPROVER_is_fresh(len, sizeof(size_t)) && *len <= VC_NAF_MAXBITS + 2)
+__CPROVER_requires(__CPROVER_is_fresh(naf, *len))
+__CPROVER_requires(((vc_mag(k) >> *len) == 0 && *len >= 1) || g_may_throw)
+VC_ASSIGNS(__CPROVER_object_whole(naf), *len, g_ctx.code, g_ctx.last, g_ctx.caught, g_ctx.error, g_ctx.number, g_thrown)
+__CPROVER_ensures(g_ctx.code == RLC_ERR || (*len <= __CPROVER_old(*len) && (vc_swide)vc_mag(k) == vc_naf_val(naf, *len)))
+__CPROVER_ensures(g_ctx.code == RLC_ERR || (gk < *len ==> (naf[gk] == 0 || ((naf[gk] & 1) == 1 && naf[gk] < (1 << (w - 1)) && naf[gk] > -(1 << (w - 1))))))
+__CPROVER_ensures(g_ctx.code == RLC_ERR || (vc_mag(k) != 0 ==> (*len >= 1 && naf[*len - 1] != 0)))
+;
+#include "vc_spec_pop.h"
